@@ -977,6 +977,16 @@ class BlockwiseRequest(BaseUnicastRequest, interfaces.Request):
             blockrequest = protocol.request(current_block1, handle_blockwise=False)
             blockresponse = await blockrequest.response
 
+            def abandon(blockrequest=blockrequest):
+                # Whatever ends the transfer at this block also ends an
+                # observation its request may have established: the token
+                # must not stay registered
+                if (
+                    blockrequest.observation is not None
+                    and not blockrequest.observation.cancelled
+                ):
+                    blockrequest.observation.cancel()
+
             # store for future blocks to ensure that the next blocks will be
             # sent from the same source address (in the UDP case; for many
             # other transports it won't matter). carrying along locally set block size limitation
@@ -997,6 +1007,7 @@ class BlockwiseRequest(BaseUnicastRequest, interfaces.Request):
                 ):
                     # Taking this for the final result would pass off a
                     # partial upload (or a request to continue) as success
+                    abandon()
                     raise error.UnexpectedBlock1Option(
                         "Block acknowledged without a Block1 option"
                     )
@@ -1009,6 +1020,7 @@ class BlockwiseRequest(BaseUnicastRequest, interfaces.Request):
 
             block1 = blockresponse.opt.block1
             if current_block1.opt.block1 is None:
+                abandon()
                 raise error.UnexpectedBlock1Option(
                     "Block1 option in response to a request without Block1"
                 )
@@ -1020,6 +1032,7 @@ class BlockwiseRequest(BaseUnicastRequest, interfaces.Request):
             )
 
             if block1.block_number != current_block1.opt.block1.block_number:
+                abandon()
                 raise error.UnexpectedBlock1Option("Block number mismatch")
 
             if size_exp == 7:
@@ -1038,6 +1051,7 @@ class BlockwiseRequest(BaseUnicastRequest, interfaces.Request):
                     # treating this as a protocol error -- letting it slip
                     # through would misrepresent the whole operation as an
                     # over-all 2.xx (successful) one.
+                    abandon()
                     raise error.UnexpectedBlock1Option(
                         "Server asked for more data at end of body"
                     )
@@ -1045,7 +1059,7 @@ class BlockwiseRequest(BaseUnicastRequest, interfaces.Request):
 
             # checks before preparing the next round:
 
-            if blockresponse.opt.observe:
+            if blockresponse.opt.observe is not None:
                 # we're not *really* interested in that block, we just sent an
                 # observe option to indicate that we'll want to observe the
                 # resulting representation as a whole
@@ -1108,6 +1122,12 @@ class BlockwiseRequest(BaseUnicastRequest, interfaces.Request):
             if lower_observation is not None and not lower_observation.cancelled:
                 lower_observation.cancel()
             raise
+
+        if response.cancelled():
+            # (cancelled in the very loop iteration the last block came in)
+            if lower_observation is not None and not lower_observation.cancelled:
+                lower_observation.cancel()
+            return
 
         response.set_result(assembled_response)
         # finally set the result
